@@ -118,7 +118,7 @@ def mutants_of(path):
             ast.parse(new)
         except SyntaxError:
             continue
-        res.append({'kind': kind, 'line': lineno, 'old': src[a:b], 'new': rep, 'source': new})
+        res.append({'kind': kind, 'line': lineno, 'old': src[a:b], 'new': rep, 'source': new, 'span': [a, b]})
     return res
 
 
@@ -132,7 +132,8 @@ def cmd_gen(args):
         take = ms[:args.per_file]
         for m in take:
             m['file'] = rel
-            m['id'] = hashlib.sha1(f"{rel}:{m['line']}:{m['kind']}:{m['old']}:{m['new']}".encode()).hexdigest()[:10]
+            m['old_id'] = hashlib.sha1(f"{rel}:{m['line']}:{m['kind']}:{m['old']}:{m['new']}".encode()).hexdigest()[:10]
+            m['id'] = hashlib.sha1(f"{rel}:{m['span']}:{m['kind']}:{m['old']}:{m['new']}".encode()).hexdigest()[:10]
             allm.append(m)
         print(rel, len(ms), 'mutants,', len(take), 'sampled')
     json.dump(allm, open(os.path.join(WORK, 'mutants.json'), 'w'))
@@ -143,14 +144,15 @@ def tree_for(m):
     d = os.path.join(WORK, 'trees', m['id'])
     if not os.path.exists(d):
         os.makedirs(os.path.dirname(d), exist_ok=True)
-        subprocess.run(['git', '-C', '/repo', 'worktree', 'add', '-q', '--detach', d, 'HEAD'], check=True)
+        os.makedirs(d)
+        # plain export of HEAD (git worktree add is not safe to run concurrently)
+        subprocess.run('git -C /repo archive HEAD | tar -x -C ' + d, shell=True, check=True)
         open(os.path.join(d, m['file']), 'w').write(m['source'])
     return d
 
 
 def drop_tree(m):
     d = os.path.join(WORK, 'trees', m['id'])
-    subprocess.run(['git', '-C', '/repo', 'worktree', 'remove', '--force', d], capture_output=True)
     shutil.rmtree(d, ignore_errors=True)
 
 
